@@ -100,7 +100,7 @@ class Ref:
             _, i, byuid, sset, attrs = op
             res = {}
             for m in self.targets(byuid, sset):
-                if ('BODY[]' in attrs or 'RFC822' in attrs) and not ro:
+                if l3.sets_seen(attrs) and not ro:
                     m[1].add(0)
                 res[m[0]] = tuple(sorted(m[1]))
             return 'OK', (res if 'FLAGS' in attrs else {u: None for u in res})
@@ -244,7 +244,7 @@ def gen_two_sessions(r, backend, length):
         if k == 'store':
             prog.append(['store', i, True, uset(), r.choice([0, 1, 1, 2, 2]), sorted(r.sample([0, 1, 2, 3, 4], r.randint(0, 2))), r.random() < 0.3])
         elif k == 'fetch':
-            prog.append(['fetch', i, True, uset(), r.choice([['BODY[]'], ['BODY[]'], ['RFC822'], ['BODY.PEEK[]'], ['FLAGS'], ['FLAGS', 'BODY[]']])])
+            prog.append(['fetch', i, True, uset(), r.choice([['BODY[]'], ['BODY[]'], ['RFC822'], ['BODY.PEEK[]'], ['FLAGS'], ['FLAGS', 'BODY[]'], ['BODY[HEADER]'], ['BODY[TEXT]'], ['BODY[HEADER.FIELDS (SUBJECT)]'], ['RFC822.HEADER'], ['BODY.PEEK[HEADER]']])])
         elif k == 'uidexpunge':
             prog.append(['expunge', i, uset()])
         elif k == 'copy':
